@@ -839,6 +839,36 @@ def malformed(ck, mode):
             ck.broken_tie('SDF model guard (number of value lists)', f'real {real} vs model {m}', inp={'sdf': text})
 
 
+def lookup_raises(ck, mode):
+    """the raise / warn exits of the look-ups (Model/SdfCirc.lean) that the generated streams stay away from: unknown pin
+    (AssertionError of tlib.pin_index), unknown cell of an INTERCONNECT (KeyError), pin index beyond cell.ins (IndexError),
+    a pin on a port, a file without top-level block (TypeError) — whole result and per-entry look-up against the real code"""
+    v1 = 'module top (a, z);\n  input a;\n  output z;\n  wire n;\n  INV_X1 u1 (.I(a), .ZN(n));\n  INV_X1 u2 (.I(n), .ZN(z));\nendmodule\n'
+    v2 = 'module t (a, z);\n  input a;\n  output z;\n  NAND2_X1 u1 (.A1(a), .A2(), .ZN(z));\nendmodule\n'
+    E = lambda a, b, io: dict({'a': a, 'b': b, 'vals': [[1000, 2000, 3000]]}, **({'io': 1} if io else {'ic': 1}))
+    variants = [(v1, [(['u1'], [E('QQ', 'ZN', True)])]), (v1, [(['u1'], [E('I', 'ZN', True)]), (['u2'], [E('(posedge ZN)', 'ZN', True)])]),
+                (v1, [([], [E('ghost/ZN', 'u2/I', False)])]), (v1, [([], [E('u1/QQ', 'u2/I', False)])]),
+                (v1, [([], [E('a/X', 'u1/I', False)])]), (v1, [([], [E('u1/ZN', 'u2/I', False), E('a', 'u1/I', False), E('u2/ZN', 'z', False)])]),
+                (v1, [(['u1'], [E('I', 'ZN', True)])]), (v2, [(['u1'], [E('A1', 'ZN', True), E('A2', 'ZN', True)])]),
+                (v2, [([], [E('a', 'u1/A2', False)]), (['u1'], [E('A1', 'ZN', True)])])]
+    for bf in (False, True):
+        for vi, (ver, bl) in enumerate(variants):
+            blocks = [{'insts': insts, 'sections': [es]} for insts, es in bl]
+            txt = '(DELAYFILE ' + ' '.join(
+                '(CELL (INSTANCE %s) (DELAY (ABSOLUTE %s)))' % (' '.join(b['insts']), ' '.join(
+                    '(%s %s %s (1:2:3))' % ('IOPATH' if 'io' in e else 'INTERCONNECT', e['a'], e['b']) for e in b['sections'][0]))
+                for b in blocks) + ')'
+            case = {'kind': 'lookup', 'tlib': 'NANGATE', 'bf': bf, 'verilog': ver, 'sdf': txt, 'blocks': blocks}
+            ck.case(key=('lookup-raise', vi, bf), nontrivial=False, tag='stream:lookup-exits')
+            try:
+                c = parse_circuit(case)
+                io, ic = real_arrays(case, c)
+                for w, r in (('io', io), ('ic', ic)): ck.hist[f'lookup-exits:{w}:' + (r if isinstance(r, str) else 'array')] += 1
+                concrete_corr(ck, case, c, mode, io, ic)
+            except Exception as ex:
+                ck.broken_tie('SDF look-up exits', f'{type(ex).__name__}: {ex}'[:300], inp=case)
+
+
 def robustness_notes(ck, notes):
     """two crashes next to the property (legal inputs, no delay misplaced): reported as notes, not as violations"""
     from kyupy import sdf, verilog
@@ -873,6 +903,7 @@ def run(ck):
     run_stream(ck, n, 'oracle', mode, notes)
     run_stream(ck, n // 2, 'overlap', mode, notes)
     malformed(ck, mode)
+    lookup_raises(ck, mode)
     try:
         text_level(ck, HAND_TEXTS, 'hand-written')
         for t in HAND_TEXTS:
